@@ -99,6 +99,23 @@ def _is_pyint(x):
     return isinstance(x, int) and not isinstance(x, bool)
 
 
+def _z(x):
+    return 0 if x is None else x
+
+
+def _norm_part(x):
+    if not isinstance(x, z3.ExprRef):
+        return x
+    if z3.is_int(x):
+        x = z3.simplify(x)
+        if z3.is_int_value(x):
+            return x.as_long()
+        return x
+    if z3.is_rational_value(x):
+        return Fraction(x.numerator_as_long(), x.denominator_as_long())
+    return x
+
+
 # --------------------------------------------------------------------------------------
 # symbolic scalars
 # --------------------------------------------------------------------------------------
@@ -318,28 +335,16 @@ class SymNum:
     # -- construction helpers -------------------------------------------------------
     @staticmethod
     def wrap(re, im=None):
-        """Normalise: returns a python number when everything is concrete."""
-        if is_z3(re):
-            re = _simp(re)
-            if z3.is_int_value(re):
-                re = re.as_long()
-            elif z3.is_rational_value(re):
-                re = Fraction(re.numerator_as_long(), re.denominator_as_long())
-                if re.denominator == 1:
-                    re = Fraction(re)  # keep real-ness
-        if im is not None and is_z3(im):
-            im = _simp(im)
-            if z3.is_int_value(im):
-                im = im.as_long()
-            elif z3.is_rational_value(im):
-                im = Fraction(im.numerator_as_long(), im.denominator_as_long())
+        """Normalise: returns a python number when everything is concrete.  Integer-sorted
+        terms (dimensions, indices) are simplified so that e.g. N+2-2 is N; real-sorted terms are
+        only checked for being numerals (constant folding is done by the _p* helpers)."""
+        re = _norm_part(re)
         if im is None:
             if is_z3(re):
                 return SymNum(re)
             return re
+        im = _norm_part(im)
         if not is_z3(re) and not is_z3(im):
-            if im == 0 and False:
-                return re
             return complex(re, im) if isinstance(re, float) or isinstance(im, float) else SymNum(re, im)
         return SymNum(re, im)
 
@@ -366,7 +371,7 @@ class SymNum:
         re = _padd(self.re, p[0])
         if self.im is None and p[1] is None:
             return SymNum.wrap(re)
-        return SymNum.wrap(re, _padd(self.im or 0, p[1] or 0))
+        return SymNum.wrap(re, _padd(_z(self.im), _z(p[1])))
 
     __radd__ = __add__
 
@@ -377,7 +382,7 @@ class SymNum:
         re = _psub(self.re, p[0])
         if self.im is None and p[1] is None:
             return SymNum.wrap(re)
-        return SymNum.wrap(re, _psub(self.im or 0, p[1] or 0))
+        return SymNum.wrap(re, _psub(_z(self.im), _z(p[1])))
 
     def __rsub__(self, o):
         p = self._coerce(o)
@@ -386,7 +391,7 @@ class SymNum:
         re = _psub(p[0], self.re)
         if self.im is None and p[1] is None:
             return SymNum.wrap(re)
-        return SymNum.wrap(re, _psub(p[1] or 0, self.im or 0))
+        return SymNum.wrap(re, _psub(_z(p[1]), _z(self.im)))
 
     def __neg__(self):
         if self.im is None:
@@ -987,6 +992,10 @@ class Ctx:
         self.solver.pop()
         return m
 
+    def bounded(self, name, ok, case=None, witness=None):
+        """record the outcome of a bounded stand-in (real code on a concrete case); never counted as proved"""
+        self.session.bounded.append({"name": name, "ok": bool(ok), "case": case, "witness": witness})
+
     def cover(self, name):
         """Vacuity guard: the current point must be reachable (assumptions satisfiable)."""
         r = self.solver.check()
@@ -1053,6 +1062,7 @@ class Session:
         self.max_paths = max_paths
         self.undecided = None
         self.side_conditions = []
+        self.bounded = []
 
     def record(self, ob):
         self.obligations.append(ob)
